@@ -21,33 +21,35 @@ from allmydata.mutable.publish import MutableData
 
 LEVEL = "model_checking"
 ASSUMPTIONS = [
-    "two writers, grids of 2-4 servers (the property's 10-server grids are not reached exhaustively)",
+    "two writers on grids of 2-4 servers; three writers on 3-4 servers and two writers on a 10-server grid (3-of-10) with one deviation less; larger combinations are not reached",
     "calls on one connection execute and answer in FIFO order; executions and responses of different connections interleave freely within the deviation bound",
     "no writer is stopped midway (no faults): detection, not crash recovery, is the subject",
 ]
 CONFIGS = [(1, 3, 3), (1, 2, 2), (2, 4, 4), (2, 3, 3)]
+MORE = [(1, 4, 4, 3), (1, 3, 3, 3), (3, 10, 10, 2), (2, 4, 4, 3)]     # (k, N, S, writers)
 
 
 def execute(case, prefix, seed):
     fmt, k, n, S = case["fmt"], case["k"], case["n"], case["S"]
+    W = case.get("W", 2)                    # writers: clients 0..W-1; client W creates the file and reads at the end
     ch = grid.Chooser(prefix)
-    g = grid.Grid(S, nclients=3, chooser=ch, split=True, client_kw=dict(k=k, n=n, happy=1))
+    g = grid.Grid(S, nclients=W + 1, chooser=ch, split=True, client_kw=dict(k=k, n=n, happy=1))
     g.sched.batch = bool(case.get("batch"))     # turn granularity, see grid.Sched.batch
     if case.get("cpu"):
         g.sched.cpu_events()     # thread-pool work completes as a scheduled event, see grid.Sched.cpu_events
     viol, obs = [], {}
     try:
         old = pattern(9, 20)
-        news = [pattern(1, 21), pattern(2, 22)]
+        news = [pattern(1 + i, 21 + i) for i in range(W)]
         g.sched.split = False
-        b0 = lib_mut.create(g, fmt, old, ci=2)
+        b0 = lib_mut.create(g, fmt, old, ci=W)
         cap = b0[0][1].get_uri()
         si = b0[0][1].get_storage_index()
         g.quiesce()
         g.sched.split = True
         seen = {}       # (client, server, shnum) -> checkstring last observed (None = absent)
         refused = set()  # clients that had a write refused
-        applied = {0: set(), 1: set()}
+        applied = {i: set() for i in range(W)}
 
         def disk():
             return {(sv, sh): p.get("checkstring") for (sv, sh), p in lib_mut.mutable_shares(g, si).items()}
@@ -80,13 +82,13 @@ def execute(case, prefix, seed):
                         seen[(ci, sv, sh)] = before.get((sv, sh))
             return out
         sched._execute = _execute
-        nodes = [g.clients[i].create_node_from_uri(cap) for i in (0, 1)]
-        boxes = [grid.box(nodes[i].overwrite(MutableData(news[i]))) for i in (0, 1)]
+        nodes = [g.clients[i].create_node_from_uri(cap) for i in range(W)]
+        boxes = [grid.box(nodes[i].overwrite(MutableData(news[i]))) for i in range(W)]
         sched.explore = True
         sched.run()
         sched.explore = False
         outcomes = []
-        for i in (0, 1):
+        for i in range(W):
             if not boxes[i]:
                 viol.append(("writer-never-completes", "writer %d's overwrite never fired; log tail %r" % (i, sched.log[-4:])))
                 outcomes.append("hang")
@@ -103,9 +105,8 @@ def execute(case, prefix, seed):
         obs["outcomes"] = outcomes
         sched.split = False
         # (c) recoverability
-        if (2 + 1) * k <= n and "hang" not in outcomes:
-            n3 = g.clients[2].nodemaker.create_from_cap(cap)
-            fresh = grid.Grid.__new__(grid.Grid)  # (no new grid: client 2 has never cached anything about the new versions)
+        if (W + 1) * k <= n and "hang" not in outcomes:
+            n3 = g.clients[W].nodemaker.create_from_cap(cap)     # client W has never cached anything about the new versions
             b3 = lib_mut.download(g, n3)
             if not b3 or b3[0][0] != "ok":
                 viol.append(("no-recoverable-version-after-concurrent-writes", "(W+1)k<=N holds (k=%d,N=%d) and no writer stopped midway, yet a fresh read fails: %s; writer outcomes %r" % (k, n, b3 and lib_imm.failure_name(b3[0][1]), outcomes)))
@@ -169,6 +170,16 @@ def run(tier, seed):
     res = grid.split_tasks(common.pmap, chunk, cases, (seed,), d, 0)
     # the same with several events per reactor turn (grid.Sched.batch), one deviation less
     res.merge(grid.split_tasks(common.pmap, chunk, [dict(c, batch=True) for c in cases], (seed,), d - 1, 0))
+    # three writers, and two writers on a 10-server grid: one deviation less
+    more = [{"fmt": fmt, "k": k, "n": n, "S": S, "W": W} for fmt in ("SDMF", "MDMF") for (k, n, S, W) in MORE]
+    if tier == "quick":
+        ten = [c for c in more if c["S"] == 10 and c["fmt"] == "SDMF"]
+        more = [c for c in more if (c["fmt"], c["n"], c["W"]) in (("SDMF", 4, 3), ("MDMF", 3, 3)) and c["k"] == 1]
+        res.merge(grid.split_tasks(common.pmap, chunk, ten, (seed,), 0, 0))
+        more_desc = "%d three-writer configurations at <= %d deviations and the 10-server grid at the canonical order" % (len(more), d - 1)
+    else:
+        more_desc = "%d further configurations %r (k,N,S,writers) x formats at <= %d deviations" % (len(more), MORE, d - 1)
+    res.merge(grid.split_tasks(common.pmap, chunk, more, (seed,), d - 1, 0))
     # encryption / hashing in the thread pool complete as scheduled events the other writer's calls can overtake
     res.merge(grid.split_tasks(common.pmap, chunk, [dict(c, cpu=True) for c in cases], (seed,), d - 1, 0))
     cov = {
@@ -179,7 +190,7 @@ def run(tier, seed):
         "deviation_bound_completed": d,
         "distinct_outcomes": len(res.distinct),
         "outcomes": {k[8:]: v for k, v in res.counts.items() if k.startswith("outcome:")},
-        "rule": "2 writers x %d (format,k,N,S) configurations; every interleaving of execute/response events with <= %d deviations from the canonical order, and with <= %d when several events share a reactor turn or thread-pool completions are scheduled events" % (len(cases), d, d - 1),
+        "rule": more_desc + "; 2 writers x %d (format,k,N,S) configurations; every interleaving of execute/response events with <= %d deviations from the canonical order, and with <= %d when several events share a reactor turn or thread-pool completions are scheduled events" % (len(cases), d, d - 1),
     }
     return res, cov
 
